@@ -233,6 +233,9 @@ func genCORSCase(t *rapid.T, preflightHeavy bool) CORSCase {
 	cfg := gen.Common()
 	cfg.Conds, cfg.OddMethods = false, false
 	cfg.MaxServices, cfg.MaxRoutes = 2, 6
+	// root paths may contain plain variables (/tenants/{t}/users): the methods computed for a
+	// preflight are those routable at the URL, whatever the root looks like
+	cfg.RootVars = rapid.Bool().Draw(t, "rootvars")
 	c.Table = gen.Table(t, cfg)
 	c.Trace = rapid.SampledFrom([]int{0, 0, 0, 1, 2}).Draw(t, "trace")
 	n := rapid.IntRange(1, 10).Draw(t, "nreqs")
